@@ -326,3 +326,100 @@ pub fn run(tree: &Tree) -> Option<String> {
     }
     None
 }
+
+/// trees written with the crate's own `par!` / `seq!` macros (fixed shapes): what the macros build must behave like the
+/// nodes they name
+pub fn macro_cases() -> Option<String> {
+    use shred::{par, seq};
+    let ctx = Ctx::new();
+    let (a, b): (Res, Res) = ((0, 1), (1, 1));
+    let leaf = |uid: usize, r: &[Res], w: &[Res]| LogSys::new(uid, r.iter().map(|x| rid(*x)).collect(), w.iter().map(|x| rid(*x)).collect(), 3, ctx.clone());
+    let refused = |f: &mut dyn FnMut()| catch_unwind(AssertUnwindSafe(f)).is_err();
+    if !refused(&mut || {
+        let _ = par![leaf(0, &[], &[a]), leaf(1, &[], &[a]),];
+    }) {
+        return Some("par![X, Y,] accepted two children that both write the same resource (debug assertions are on: adding a child to a par node panics when its access conflicts)".into());
+    }
+    if !refused(&mut || {
+        let _ = par![leaf(0, &[a], &[]), leaf(1, &[b], &[]), leaf(2, &[], &[a]),];
+    }) {
+        return Some("par![X, Y, Z,] accepted a third child writing what the first child reads (debug assertions are on)".into());
+    }
+    if !refused(&mut || {
+        let _ = par![leaf(0, &[], &[b]), seq![leaf(1, &[a], &[]), leaf(2, &[b], &[]),],];
+    }) {
+        return Some("par![X, seq![Y, Z,],] accepted a seq child one of whose leaves reads what X writes (debug assertions are on)".into());
+    }
+    if refused(&mut || {
+        let _ = par![leaf(0, &[a], &[]), leaf(1, &[a], &[b]),];
+    }) {
+        return Some("par![X, Y,] panicked although the children only share a resource both read".into());
+    }
+    if refused(&mut || {
+        let _ = seq![leaf(0, &[], &[a]), leaf(1, &[], &[a]), leaf(2, &[a], &[]),];
+    }) {
+        return Some("seq![X, Y, Z,] panicked: children of a seq node may conflict".into());
+    }
+    let tree = seq![leaf(0, &[], &[a]), par![leaf(1, &[a], &[]), leaf(2, &[a], &[]),], leaf(3, &[], &[a, b]),];
+    let (mut r, mut w) = (vec![], vec![]);
+    tree.reads(&mut r);
+    tree.writes(&mut w);
+    let set = |v: &Vec<ResourceId>| v.iter().cloned().collect::<BTreeSet<_>>();
+    if set(&r) != [rid(a)].into_iter().collect() || set(&w) != [rid(a), rid(b)].into_iter().collect() {
+        return Some(format!("seq![W, par![R, R,], W,] reports reads {:?} / writes {:?}, not the union of its leaves'", r, w));
+    }
+    let mut ps = ParSeq::new(tree, pool());
+    let mut world = World::empty();
+    ps.setup(&mut world);
+    let evs = ctx.take();
+    for u in 0..4 {
+        let k = evs.iter().filter(|e| e.uid == u && e.k == EvK::Setup).count();
+        if k != 1 {
+            return Some(format!("macro-built tree: setup reached leaf #{} {} times, expected exactly once", u, k));
+        }
+    }
+    for round in 0..2 {
+        ps.dispatch(&world);
+        let evs = ctx.take();
+        let pos = |u: usize, k: EvK| evs.iter().position(|e| e.uid == u && e.k == k);
+        for u in 0..4 {
+            if evs.iter().filter(|e| e.uid == u && e.k == EvK::Enter).count() != 1 {
+                return Some(format!("macro-built tree, dispatch {}: leaf #{} did not run exactly once", round, u));
+            }
+        }
+        let before = |x: usize, y: usize| pos(x, EvK::Exit) < pos(y, EvK::Enter);
+        if !(before(0, 1) && before(0, 2) && before(1, 3) && before(2, 3)) {
+            return Some(format!("macro-built tree seq![0, par![1, 2,], 3,], dispatch {}: a leaf of a later child of the seq node started before an earlier child had finished", round));
+        }
+    }
+    None
+}
+
+/// C13: a par/seq tree registered as a thread-local system of a dispatcher is a registered system: Dispatcher::setup reaches
+/// the setup hook of every leaf exactly once
+pub fn thread_local_setup() -> Option<String> {
+    use shred::{par, seq};
+    let ctx = Ctx::new();
+    let leaf = |uid: usize| LogSys::new(uid, vec![], vec![], 3, ctx.clone());
+    let tree = seq![leaf(0), par![leaf(1), leaf(2),], leaf(3),];
+    let mut b = crate::real::Builder::new();
+    b.add_pool(pool());
+    b.add(leaf(4), "s", &[]);
+    b.add_thread_local(ParSeq::new(tree, pool()));
+    let mut d = b.build();
+    let mut world = World::empty();
+    d.setup(&mut world);
+    let evs = ctx.take();
+    for u in 0..5 {
+        let k = evs.iter().filter(|e| e.uid == u && e.k == EvK::Setup).count();
+        if k != 1 {
+            return Some(format!(
+                "Dispatcher::setup called the setup hook of system #{} {} times, expected exactly once ({})",
+                u,
+                k,
+                if u < 4 { "a leaf of a par/seq tree registered as a thread-local system" } else { "an ordinary system" }
+            ));
+        }
+    }
+    None
+}
